@@ -937,6 +937,14 @@ func findSinkType(params *filterParams, parent ast.Node, kv *ast.KeyValueExpr, e
 				if astutil.Unparen(arg) != e {
 					continue
 				}
+				// The operand count fits the signature (not f(g()) with a multi-valued g()).
+				if typ.Variadic() && !parent.Ellipsis.IsValid() {
+					if len(parent.Args) < typ.Params().Len()-1 {
+						break
+					}
+				} else if len(parent.Args) != typ.Params().Len() {
+					break
+				}
 				isVariadicArg := (i >= typ.Params().Len()-1) && typ.Variadic()
 				if isVariadicArg && !parent.Ellipsis.IsValid() {
 					return typ.Params().At(typ.Params().Len() - 1).Type().(*types.Slice).Elem()
